@@ -22,8 +22,8 @@ GOOD = [".f90", ".F90", ".f", ".F", ".for", ".FOR", ".fOr", ".f03", ".F08", ".fp
 BAD = [".f9", ".f90.bak", ".ff", ".txt", ".ff90", "f90", ".F900", ".f90x", ".fo", ".fp", ".9f", ""]
 EXTRA = [".inc", ".h", "inc", ".FYP"]
 EXTRA_CASE = [".INC", ".Inc", ".H", "INC", ".fyp", ".Fyp"]   # differ from a configurable suffix by letter case only
-STEMS = ["a", "b", "mod_x", "x y", "q[1]", "é", "main", "t_tmp", "lib.v2"]
-DIRS = ["src", "sub", "inc", "skip", "d e", "lib", "x"]
+STEMS = ["a", "b", "mod_x", "x y", "q[1]", "é", "main", "t_tmp", "lib.v2", ".hid"]
+DIRS = ["src", "sub", "inc", "skip", "d e", "lib", "x", ".gen", ".cache"]   # dot-directories: shell-style globbing would skip them, pathlib does not
 
 
 def gen_tree(rng):
@@ -316,10 +316,12 @@ def run_cases(ctx, cases, label):
 
 def fixed_cases():
     t = {"a.f90": "F", "b.txt": "F", "sub": "D", "sub/x.F": "F", "sub/y.f90.bak": "F", "empty": "D", "sub/deep": "D", "sub/deep/z.for": "F",
-         "skip": "D", "skip/s.f90": "F", "c.inc": "F", "t_tmp.f90": "F", "d.INC": "F", "sub/e.Inc": "F", "up": "D", "up/only.INC": "F"}
+         "skip": "D", "skip/s.f90": "F", "c.inc": "F", "t_tmp.f90": "F", "d.INC": "F", "sub/e.Inc": "F", "up": "D", "up/only.INC": "F",
+         "sub/.gen": "D", "sub/.gen/g.f90": "F", "skip/.cache": "D", "skip/.cache/h.f90": "F"}
     cfgs = [{}, {"source_dirs": ["sub"]}, {"source_dirs": ["sub/**"]}, {"source_dirs": ["**"]}, {"excl_paths": ["skip"]},
             {"excl_paths": ["sub"]}, {"incl_suffixes": [".inc"]}, {"excl_suffixes": ["_tmp.f90"]}, {"source_dirs": ["<ROOT>"]},
-            {"source_dirs": ["sub", "nope"], "excl_paths": ["sub/x.F"]}, {"excl_paths": ["**/*.f90"]}]
+            {"source_dirs": ["sub", "nope"], "excl_paths": ["sub/x.F"]}, {"excl_paths": ["**/*.f90"]},
+            {"source_dirs": ["sub/*"]}, {"source_dirs": ["*/*"]}, {"excl_paths": ["skip/**"]}, {"excl_paths": ["*/.*"]}]
     return [(t, c) for c in cfgs]
 
 
